@@ -891,8 +891,8 @@ theorem C05_src_reports :
     TTV.SrcRef.DetailSrc.reportExpectedFailure.drop 2 = ["  a0.addExpectedFailure(self, details=self.getDetails())"] ∧
     TTV.SrcRef.DetailSrc.reportUnexpectedSuccess.drop 2 = ["  a0.addUnexpectedSuccess(self, details=self.getDetails())"] ∧
     TTV.SrcRef.DetailSrc.caseReset.drop 1 =
-      ["  self._cleanups = []", "  self._unique_id_gen = itertools.count(1)", "  self._traceback_id_gens = {}",
-       "  self.__setup_called = False", "  self.__teardown_called = False", "  self.__details = None"] :=
+      ["  self._cleanups = []", "  self._unique_id_gen = itertools.count(1)", "  self.__details = None",
+       "  self.__setup_called = False", "  self.__teardown_called = False", "  self._traceback_id_gens = {}"] :=
   ⟨rfl, rfl, rfl, rfl, rfl, rfl, rfl, rfl, rfl, rfl, rfl, rfl, rfl, rfl, rfl, rfl⟩
 
 end src
